@@ -147,7 +147,11 @@ func (rp *replayer) runBatch(d string, recs []replayRec) []string {
 	bp := filepath.Join(rp.tmp, fmt.Sprintf("batch-%d.json", time.Now().UnixNano()))
 	os.WriteFile(bp, b, 0o644)
 	defer os.Remove(bp)
-	cmd := exec.Command(rp.bins[d], "-test.run", "^TestVX$", "-test.timeout", "300s")
+	to := "300s"
+	if len(recs) == 1 {
+		to = "90s"
+	}
+	cmd := exec.Command(rp.bins[d], "-test.run", "^TestVX$", "-test.timeout", to)
 	cmd.Env = append(os.Environ(), "VX_BATCH="+bp)
 	cmd.Dir = filepath.Join(repoDir, harnessPkgDir(d))
 	var buf bytes.Buffer
@@ -190,11 +194,23 @@ func (rp *replayer) Run(vs []sx.Violation) []string {
 	}
 	for d, ks := range byDir {
 		var recs []replayRec
+		var idx []int
 		for _, k := range ks {
+			if vs[k].Kind == "budget" {
+				// possible non-termination: replay alone, with the short time-out
+				o := rp.runBatch(d, []replayRec{recOf(vs[k])})
+				out, _, _ := strings.Cut(o[0], " |obs| ")
+				if out == "not-run" {
+					out = "panic \"native run did not terminate within 90s\""
+				}
+				outs[k] = out
+				continue
+			}
 			recs = append(recs, recOf(vs[k]))
+			idx = append(idx, k)
 		}
 		o := rp.runBatch(d, recs)
-		for j, k := range ks {
+		for j, k := range idx {
 			out, _, _ := strings.Cut(o[j], " |obs| ")
 			outs[k] = out
 		}
